@@ -64,22 +64,24 @@ type instruction struct {
 }
 
 func newInstruction(ins parser.Instruction) *instruction {
+	effects := dropFallthroughJumps(ins)
+
 	return &instruction{
 		typ:      ins.Type,
 		origAddr: ins.Addr,
 		bytes:    ins.Bytes,
 		details:  ins.Details,
 
-		effects:     ins.Effects,
+		effects:     effects,
 		jumpTargets: jumps(ins),
 
 		currAddr: ins.Addr,
 
-		inRegs:  inputRegs(ins.Effects),
-		outRegs: outputRegs(ins.Effects),
+		inRegs:  inputRegs(effects),
+		outRegs: outputRegs(effects),
 
-		loads:  loads(ins.Effects),
-		stores: stores(ins.Effects),
+		loads:  loads(effects),
+		stores: stores(effects),
 
 		depsFwd:  make(insSet, 5),
 		depsBack: make(insSet, 5),
@@ -103,34 +105,59 @@ func jumps(ins parser.Instruction) []expr.Expr {
 			continue
 		}
 
-		addrs := exprtransform.Possibilities(e.Value())
-
-		// Filter those jump addresses which jump to the following
-		// instruction as those are technically not jumps.
-		j := 0
-		for i := 0; i < len(addrs); i, j = i+1, j+1 {
-			a := exprtransform.ConstFold(addrs[i])
-			addrs[j] = a
-
-			c, ok := a.(expr.Const)
-			if !ok {
-				continue
-			}
-
-			addr, _ := expr.ConstUint[model.Addr](c)
-			if addr != ins.End() {
-				continue
-			}
-
-			j--
-		}
-		jumpAddrs = append(jumpAddrs, addrs[:j]...)
+		jumpAddrs = append(jumpAddrs, jumpTargets(e, ins.End())...)
 	}
 
 	return jumpAddrs
 }
 
-// Idx returns index of an instruction in its basic block.
+// jumpTargets returns all the possible values an instruction pointer store e
+// can write except of next, which is address of the following instruction.
+func jumpTargets(e expr.RegStore, next model.Addr) []expr.Expr {
+	addrs := exprtransform.Possibilities(e.Value())
+
+	j := 0
+	for i := 0; i < len(addrs); i, j = i+1, j+1 {
+		a := exprtransform.ConstFold(addrs[i])
+		addrs[j] = a
+
+		c, ok := a.(expr.Const)
+		if !ok {
+			continue
+		}
+
+		addr, _ := expr.ConstUint[model.Addr](c)
+		if addr != next {
+			continue
+		}
+
+		j--
+	}
+
+	return addrs[:j]
+}
+
+// dropFallthroughJumps returns effects of ins without those instruction pointer
+// stores which can jump only to the following instruction.
+//
+// Such a store is just a fall-through written down explicitly. As it refers the
+// following instruction by a constant address, it would start to point to a
+// wrong place once the instruction is moved. Without the store, the execution
+// simply continues by whatever instruction follows.
+func dropFallthroughJumps(ins parser.Instruction) []expr.Effect {
+	effects := make([]expr.Effect, 0, len(ins.Effects))
+	for _, ef := range ins.Effects {
+		e, ok := ef.(expr.RegStore)
+		if ok && e.Key() == expr.IPKey && len(jumpTargets(e, ins.End())) == 0 {
+			continue
+		}
+
+		effects = append(effects, ef)
+	}
+
+	return effects
+}
+
 func (i *instruction) Idx() int { return i.blockIdx }
 
 // Begin returns the in-memory address of the instruction in the current order
